@@ -2,7 +2,7 @@
 //!   c11 record <cases.ndjson> <trace.ndjson> <maxperm> <twogroups> <twoperms>
 //!   c11 print  <cases.ndjson> <n> <perm> <mask> <style>     show the rendering of one variant (debugging / replays)
 //!   c11 probe  <dir>                                         compile + run dir/main.sy (+ other .sy files)
-//! Case:   {fam:"shape"|"pos"|"unspec"|"type", id:[{kind,j}] | {pos,user} | {shape,use}, n, class, tops:[top-level nodes in canonical order, start last], out, status}
+//! Case:   {fam:"shape"|"pos"|"unspec"|"self"|"type"|"dead"|"deadself", id:[{kind,j}] | {pos,user} | {shape,use} | {ctx,pos,user}, n, class, tops:[top-level nodes in canonical order, start last], out, status}
 //! Record: {fam, id, n, class, tops, obs:[{class, ekind, nerr, bytes, prints, status}], variants:[[perm, mask, style, obs#]], detail:{..}}
 //!   perm  = index of the permutation of the NS statements in factoradic (Lehmer) order: 0 = canonical, NS!-1 = reversed
 //!   mask  = bit c set: canonical statement c (0-based) lives in other.sy (start, the last statement, never does); 0 = one file
